@@ -25,6 +25,9 @@ def make_cases(progs_path, cases_path, inputs, extra=None, trace=False):
 
 
 LIST4 = {"t": "list", "v": [{"t": "int", "v": 10}, {"t": "int", "v": 20}, {"t": "pair", "l": {"t": "sym", "n": "a"}, "r": {"t": "int", "v": 30}}, {"t": "int", "v": 40}]}
+NESTED = {"t": "list", "v": [{"t": "pair", "l": {"t": "sym", "n": "a"}, "r": {"t": "list", "v": [{"t": "pair", "l": {"t": "sym", "n": "b"}, "r": {"t": "int", "v": 1}}, {"t": "int", "v": 7},
+                                {"t": "pair", "l": {"t": "sym", "n": "a"}, "r": {"t": "list", "v": [{"t": "int", "v": 9}]}}]}},
+                          {"t": "pair", "l": {"t": "sym", "n": "b"}, "r": {"t": "int", "v": 2}}, {"t": "int", "v": 40}]}
 FOCUSED_QUICK = [("MC_Programs_calls6", [None, {"t": "int", "v": 5}]),
                  ("MC_Programs_conds5", [None, {"t": "int", "v": 5}]),
                  ("MC_Programs_chains7", [{"t": "int", "v": 5}]),
@@ -32,7 +35,8 @@ FOCUSED_QUICK = [("MC_Programs_calls6", [None, {"t": "int", "v": 5}]),
                  ("MC_Programs_seqs4", [{"t": "int", "v": 5}]),
                  ("MC_Programs_slices7", [LIST4]),
                  ("MC_Programs_partial5", [{"t": "int", "v": 5}]),
-                 ("MC_Programs_casts7q", [LIST4])]
+                 ("MC_Programs_casts7q", [LIST4]),
+                 ("MC_Programs_paths5", [NESTED])]
 FOCUSED_THOROUGH = [("MC_Programs_calls8", [None, {"t": "int", "v": 5}]),
                     ("MC_Programs_conds6", [None, {"t": "int", "v": 5}, progs.INPUTS[3]]),
                     ("MC_Programs_chains7", [None, {"t": "int", "v": 5}]),
@@ -41,7 +45,7 @@ FOCUSED_THOROUGH = [("MC_Programs_calls8", [None, {"t": "int", "v": 5}]),
                     ("MC_Programs_seqs5", [None, {"t": "int", "v": 1}]),
                     ("MC_Programs_slices7w", [LIST4]),
                     ("MC_Programs_partial6", [None, {"t": "int", "v": 5}]),
-                    ("MC_Programs_casts6", [None, LIST4]), ("MC_Programs_casts7", [LIST4])]
+                    ("MC_Programs_casts6", [None, LIST4]), ("MC_Programs_casts7", [LIST4]), ("MC_Programs_paths6", [NESTED, LIST4])]
 
 
 def corpus(out, tier, seed, wd, trace=False, extra=None, light=False):
